@@ -98,6 +98,19 @@ let () =
              | _ -> true)) in
       r (np ok) (np ok) (posb s && dst <> [])
     | _ -> failwith "pipe");
+  (* a checked stage followed by a second checked indexing stage: Nothing iff either stage is invalid *)
+  register "pipe3" (fun a -> match a with [x; k; d1; d2] ->
+      let s = shape_of x and d1 = getL d1 and d2 = getL d2 and k = int_of_z (getI k) in
+      let ok = (match Views.np_reshape_shape s d1 with
+        | None -> false
+        | Some m ->
+            (match k with
+             | 0 | 1 | 4 | 5 -> Views.np_reshape_shape m d2 <> None
+             | 2 -> posb d2 && Broadcast.np_broadcast_to_shape m d2 <> None
+             | 3 -> Views.np_reshape_shape (List.rev m) d2 <> None
+             | _ -> true)) in
+      r (np ok) (np ok) false
+    | _ -> failwith "pipe3");
   (* two possibly-empty stage results (reshapes of the same array) as both operands of a binary view *)
   register "pipe2" (fun a -> match a with [x; k; da; db] ->
       let s = shape_of x and da = getL da and db = getL db and k = int_of_z (getI k) in
